@@ -234,6 +234,7 @@ func genWb(w *bufio.Writer, r *hx.Rng, tier string, seed uint64) {
 			emitWb(w, "fatfull/12", genFull(r, 12, 1), [][]bstep{{addB(sigExName, 32, 56), addB(sigName, 5000, 57)}})
 		}
 	}
+	genDifat2(w, r, tier) // (8') two and three DIFAT sectors (difat2.go)
 	// (9) the repository's fixtures
 	for _, fx := range fixtureFiles() {
 		nh := 4
